@@ -33,6 +33,7 @@ PARTS = {
     "C05": [("execsim", 700, 1.0)],
     "C09": [("execsim", 700, 1.0)],
     "C06": [("execsim", 160, 1.0)],
+    "C14": [("execsim", 700, 1.0)],
     "C11": [("triesim", 6000, 1.0)],
     "C03": [("signersim", 1200, 0.5), ("csim", 120, 0.5)],
 }
@@ -60,6 +61,9 @@ STUB = {
              "EVM application -> stateless lite app (hashes are a pure function of the block)", "RPC, archive, logging"],
 }
 
+
+# evidence and replay files of a run against a scratch copy of the repository (VERIF_REPO) go elsewhere
+OUT = os.environ.get("VERIF_OUT", VERIF)
 
 def load_known():
     p = os.path.join(VERIF, "known_findings.json")
@@ -92,7 +96,7 @@ def run_workers(binp, test, prop, seed, nruns, budget_s, outdir, extra_env=None,
     # which removes most real-scheduler nondeterminism inside a quiescence window (parallelism comes from
     # the number of worker processes)
     env0 = dict(drv.ENV, GOMAXPROCS="1", VERIF_MODE="batch", VERIF_PROP=prop, VERIF_SEED=str(seed), VERIF_KNOWN=",".join(known_keys()),
-                VERIF_REPLAY_DIR=os.path.join(VERIF, "replays"))
+                VERIF_REPLAY_DIR=os.path.join(OUT, "replays"))
     if extra_env:
         env0.update(extra_env)
 
@@ -238,8 +242,8 @@ def write_evidence(prop, tier, seed, level, results, wall, violations, rule, ext
         cov.update(extra)
     ev = dict(property_id=prop, tier=tier, seed=seed, level=level, coverage=cov, wall_s=round(wall, 1), violations=violations,
               assumptions=assumptions or [])
-    os.makedirs(os.path.join(VERIF, "evidence"), exist_ok=True)
-    p = os.path.join(VERIF, "evidence", prop + ".json")
+    os.makedirs(os.path.join(OUT, "evidence"), exist_ok=True)
+    p = os.path.join(OUT, "evidence", prop + ".json")
     json.dump(ev, open(p + ".tmp", "w"), indent=1, default=str)
     os.replace(p + ".tmp", p)
 
@@ -261,7 +265,7 @@ def report(prop, results, failures, determinism):
         if f["property"] == prop:
             print("KNOWN-FINDING: property=%s %s (oracle %s key %s; seen in %d runs of this batch)" % (prop, f["what"], f["oracle"], f["key"], seen_known.get(k, 0)))
     rc = 0
-    os.makedirs(os.path.join(VERIF, "replays"), exist_ok=True)
+    os.makedirs(os.path.join(OUT, "replays"), exist_ok=True)
     reported = set()
     for f in list(failures):
         ft = f.get("fatal")
@@ -274,7 +278,7 @@ def report(prop, results, failures, determinism):
             if k in reported:
                 continue
             reported.add(k)
-            path = os.path.join(VERIF, "replays", "%s-process-aborted-%s.json" % (prop, ft["seed"]))
+            path = os.path.join(OUT, "replays", "%s-process-aborted-%s.json" % (prop, ft["seed"]))
             json.dump(dict(engine=f.get("engine", "csim"), property=prop, seed=ft["seed"], from_seed=True, index=ft["index"],
                            violation=dict(property=prop, oracle="process-aborted", key=ft["frame"], msg=ft["msg"]),
                            note="the run aborts the Go runtime; replay regenerates the run from its seed"), open(path, "w"), indent=1)
@@ -287,7 +291,7 @@ def report(prop, results, failures, determinism):
             continue
         reported.add(k)
         rp = r.get("replay")
-        path = os.path.join(VERIF, "replays", "%s-%s-%s.json" % (prop, v["oracle"], r["seed"]))
+        path = os.path.join(OUT, "replays", "%s-%s-%s.json" % (prop, v["oracle"], r["seed"]))
         if rp:
             json.dump(rp, open(path, "w"), indent=1)
         else:
